@@ -71,39 +71,66 @@ def copyHosts (copy : Option (Rule × Bytes)) : List Bytes :=
   | some (some h) => [h]
   | _ => []
 
+/-- a copy request that was dropped contacts nobody; one that was built goes to the copy rule's host -/
+theorem copyHosts_builtCopy (cfg : ExecCfg) (copy : Option (Rule × Bytes)) :
+    ∀ h ∈ copyHosts (builtCopy cfg copy), h ∈ copyHosts copy := by
+  intro h hh
+  cases copy with
+  | none => exact hh
+  | some x =>
+    by_cases hb : (cfg.build x.1.internal).isSome = true
+    · simp [builtCopy, hb, copyHosts] at hh
+    · simpa [builtCopy, hb] using hh
+
+/-- the two performs without a main request: 404, and only the copy's host is contacted -/
+theorem performBoth_no_proxy (cfg : ExecCfg) (m : Bytes) (hasRetry : Bool) (copy : Option (Rule × Bytes))
+    (hosts : List Bytes) (hsub : ∀ h ∈ copyHosts copy, h ∈ hosts)
+    (st : ExecState) (h0 : OnlyHosts hosts st) :
+    OnlyHosts hosts (performBoth cfg m hasRetry none copy st).1 ∧
+    ∃ msg, (performBoth cfg m hasRetry none copy st).2 = .done (.userError 404 msg) := by
+  unfold performBoth
+  simp only [Option.map_none, Option.bind_none, Option.isSome_none, Bool.false_and, Bool.false_or]
+  have hcs : ∀ src st', OnlyHosts hosts st' →
+      OnlyHosts hosts (copyStage cfg m hasRetry (copy.map fun x => destHost x.2) src st') := by
+    intro src st' hst
+    unfold copyStage
+    split
+    · rename_i h heq
+      exact performRequest_hosts _ _ _ _ _ _ _ _ _ (hsub _ (by simp [copyHosts, heq])) hst
+    · exact hst
+  split
+  · exact ⟨by simp only [mainStage]; exact hcs _ _ (fun c hc => h0 c hc), _, rfl⟩
+  · exact ⟨by simp only [mainStage]; exact hcs _ _ h0, _, rfl⟩
+
 /-- **no_match_404.** With no proxy match, one pass ends without a main response, its verdict is
-    the 404 of proxy.go:262-265 unless building/parsing the COPY request already failed, and the
-    only destination contacted is the copy rule's — for every copy behaviour and fault script. -/
+    the 404 of proxy.go:262-265 unless the COPY target does not parse (plain error) or building the
+    copy request panics (`secrets[0]` on an empty list), and the only destination contacted is the
+    copy rule's — for every copy behaviour and fault script.  A copy request that merely cannot be
+    built (407) no longer shows: the copy is dropped and the verdict is the 404. -/
 theorem routeOnce_no_proxy (cfg : ExecCfg) (m : Bytes) (hasRetry : Bool) (copy : Option (Rule × Bytes))
     (st : ExecState) (h0 : OnlyHosts (copyHosts copy) st) :
     OnlyHosts (copyHosts copy) (routeOnce cfg m hasRetry none copy st).1 ∧
     (((routeOnce cfg m hasRetry none copy st).2 matches .done (.userError 404 _)) ∨
      ((routeOnce cfg m hasRetry none copy st).2 matches .done .plainError) ∨
-     (∃ e, (copy.bind fun x => cfg.build x.1.internal) = some e ∧
-        (routeOnce cfg m hasRetry none copy st).2 matches .done _)) := by
+     ((copy.bind fun x => cfg.build x.1.internal) = some .panicNoSecrets ∧
+        (routeOnce cfg m hasRetry none copy st).2 matches .done .panicked)) := by
   unfold routeOnce
-  simp only [Option.map_none, Option.bind_none, Option.isSome_none, Bool.false_and, Bool.false_or]
+  simp only [Option.map_none, Option.bind_none]
   split
   · exact ⟨h0, Or.inr (Or.inl rfl)⟩
-  · cases hb : (copy.bind fun x => cfg.build x.1.internal) with
-    | some e => exact ⟨h0, Or.inr (Or.inr ⟨e, rfl, rfl⟩)⟩
-    | none =>
-      simp only
-      have hcs : ∀ src st', OnlyHosts (copyHosts copy) st' →
-          OnlyHosts (copyHosts copy) (copyStage cfg m hasRetry (copy.map fun x => destHost x.2) src st') := by
-        intro src st' hst
-        unfold copyStage
-        split
-        · rename_i h heq
-          exact performRequest_hosts _ _ _ _ _ _ _ _ _ (by simp [copyHosts, heq]) hst
-        · exact hst
-      split
-      · exact ⟨by simp only [mainStage]; exact hcs _ _ (fun c hc => h0 c hc), Or.inl rfl⟩
-      · exact ⟨by simp only [mainStage]; exact hcs _ _ h0, Or.inl rfl⟩
+  · split
+    · rename_i hp
+      exact ⟨h0, Or.inr (Or.inr ⟨hp, rfl⟩)⟩
+    · obtain ⟨hh, msg, hd⟩ := performBoth_no_proxy cfg m hasRetry (builtCopy cfg copy) (copyHosts copy)
+        (copyHosts_builtCopy cfg copy) st h0
+      exact ⟨hh, Or.inl (by rw [hd]; rfl)⟩
 
-/-- lifted to `routeRequest`: the client-visible result and the contacts, for every retry chain -/
+/-- lifted to `routeRequest`: the client-visible result and the contacts, for every retry chain.
+    No hypothesis on whether the copy request can be built: an error while building it is logged
+    and the copy dropped.  What remains excluded is a copy target that does not parse and the
+    `secrets[0]` run-time panic (empty, non-nil secret list). -/
 theorem no_match_404 (cfg : ExecCfg) (q : Query) (m : Bytes) (chain : List Rule) (copy : Option (Rule × Bytes))
-    (b : Bytes) (hbuild : (copy.bind fun x => cfg.build x.1.internal) = none)
+    (b : Bytes) (hpanic : (copy.bind fun x => cfg.build x.1.internal) ≠ some .panicNoSecrets)
     (hparse : (copy.map fun x => destHost x.2) ≠ some none) :
     (∃ msg, (routeRequest cfg q m chain none copy { remaining := b }).2 = .userError 404 msg) ∧
     OnlyHosts (copyHosts copy) (routeRequest cfg q m chain none copy { remaining := b }).1 := by
@@ -113,12 +140,12 @@ theorem no_match_404 (cfg : ExecCfg) (q : Query) (m : Bytes) (chain : List Rule)
     intro hr
     refine ⟨(routeOnce_no_proxy cfg m hr copy _ h0).1, ?_⟩
     unfold routeOnce
-    simp only [Option.map_none, Option.bind_none, Option.isSome_none, Bool.false_and, Bool.false_or]
+    simp only [Option.map_none, Option.bind_none]
     have : ¬ (False ∨ (copy.map fun x => destHost x.2) = some none) := by simp [hparse]
     simp only [reduceCtorEq, false_or] at this ⊢
-    rw [if_neg this, hbuild]
-    simp only [mainStage]
-    split <;> exact ⟨_, rfl⟩
+    rw [if_neg this, if_neg hpanic]
+    exact (performBoth_no_proxy cfg m hr (builtCopy cfg copy) (copyHosts copy)
+      (copyHosts_builtCopy cfg copy) _ h0).2
   cases chain with
   | nil =>
     obtain ⟨hh, msg, hd⟩ := key false
@@ -146,5 +173,15 @@ example : (routeRequest { script := [ { host := b!"c0.test", status := 200, head
             ⟨b!"http", b!"h", b!"/m/a", b!"GET"⟩ b!"GET" [] none
             (some ({ path := b!"/m/*", wci := some 3, dest := b!"http://c0.test/$1", type := .copy }, b!"http://c0.test/a")) { remaining := [] }).1.contacts
     = [⟨b!"c0.test", b!"GET", false, []⟩] := by decide
+
+/-- Regression instance (the former finding C20-a seen from C01): no proxy rule matches, the copy
+    rule is internal and the client sent Richie-Request-ID without a secret — the copy request cannot
+    be built; the copy is dropped (nobody is contacted) and the client gets the 404, not a 407 -/
+example : (routeRequest { script := [ { host := b!"c0.test", status := 200, headers := [], body := b!"x", chunked := false, connectErrors := 0, readErrAt := none } ],
+                          retries := 0, excluded := b!"POST", build := fun internal => if internal then some .idOrIpNoSecret else none,
+                          is4xx := fun _ => false, isRedirect := fun _ => false, locationOk := fun _ => true }
+            ⟨b!"http", b!"h", b!"/m/a", b!"GET"⟩ b!"GET" [] none
+            (some ({ path := b!"/m/*", wci := some 3, dest := b!"http://c0.test/$1", internal := true, type := .copy }, b!"http://c0.test/a")) { remaining := [] })
+    matches ({ contacts := [], .. }, .userError 404 _) := by decide
 
 end Props.C01Exec
